@@ -467,6 +467,10 @@ func genGroup(t *rapid.T) groupCase {
 	M := rapid.IntRange(1, maxM).Draw(t, "members")
 	T := rapid.IntRange(1, maxT).Draw(t, "topics")
 	racks := []string{"", "a", "b", "c", "d"}[:rapid.IntRange(1, 5).Draw(t, "nracks")]
+	if rapid.IntRange(0, 3).Draw(t, "realRackNames") == 0 {
+		// names as cloud providers spell them: upper case, digits, blanks; a rack is the same rack only if spelt the same
+		racks = []string{"", "AZ-1", "az-1", "AZ-2 ", "eu-west-1a"}[:rapid.IntRange(2, 5).Draw(t, "nRealRacks")]
+	}
 	// member ids: distinct, not in sorted order, of mixed length
 	idGen := rapid.StringMatching(`[a-z]{1,3}-[0-9a-f]{1,6}`)
 	seen := map[string]bool{}
